@@ -73,8 +73,14 @@ def run(pid, tier, ev=None, vd=None, finish=True):
                 if k % 5 == 4:
                     job["kill"] = (rng.randint(1, max(program)), rng.randint(0, 9))
                 jobs.append(job)
+        # the lock itself as the suspect: every multi-commit program under the lock-stress policy
+        for prog, program in [("casrace3", hr.CASRACE3), ("three", hr.EXTRA["three"]), ("deldel", hr.EXTRA["deldel"]), ("putput", hr.PROGRAMS["putput"]),
+                              ("create", hr.PROGRAMS["create"]), ("putdel", hr.PROGRAMS["putdel"])]:
+            for k in range(12 if tier == "quick" else 200):
+                jobs.append({"prog": prog, "program": program, "policy": "lock_stress", "seed": vlib.seed() * 313 + k, "src": "search"})
         # adversarial corpus (counterexamples of weakened model variants, kept as regressions)
         jobs.append({"prog": "list_race", "program": hr.LIST_RACE, "policy": "list_race", "init": {"f": "c1", "g": "c1"}, "src": "corpus"})
+        jobs.append({"prog": "lock_identity", "program": hr.CASRACE3, "policy": "lock_identity", "src": "corpus"})
         jobs.append({"prog": "stage_both_then_commit", "program": hr.PROGRAMS["putput"], "order": [1, 2] * 12, "src": "corpus"})
         jobs.append({"prog": "get_between_commits", "program": {1: [("put", "f", "c1", "c2")], 2: [("get", "f")]},
                      "order": [2, 1, 1, 1, 1, 1, 1, 1, 1, 2, 2, 2], "src": "corpus"})
